@@ -24,7 +24,7 @@ use rustc_middle::mir::{
     self, AggregateKind, BasicBlock, Body, Const as MirConst, ConstValue, Operand, Place,
     ProjectionElem, Rvalue, StatementKind, TerminatorKind, UnwindAction,
 };
-use rustc_middle::ty::print::{with_no_trimmed_paths, with_resolve_crate_name};
+use rustc_middle::ty::print::{with_no_trimmed_paths, with_no_visible_paths, with_resolve_crate_name};
 use rustc_middle::ty::{self, Instance, Ty, TyCtxt, TypeVisitableExt, TypingEnv};
 use rustc_span::Span;
 
@@ -59,13 +59,13 @@ struct Cx<'tcx> {
 
 impl<'tcx> Cx<'tcx> {
     fn path(&self, did: DefId) -> String {
-        with_resolve_crate_name!(with_no_trimmed_paths!(self.tcx.def_path_str(did)))
+        with_resolve_crate_name!(with_no_visible_paths!(with_no_trimmed_paths!(self.tcx.def_path_str(did))))
     }
     fn path_args(&self, did: DefId, args: ty::GenericArgsRef<'tcx>) -> String {
-        with_resolve_crate_name!(with_no_trimmed_paths!(self.tcx.def_path_str_with_args(did, args)))
+        with_resolve_crate_name!(with_no_visible_paths!(with_no_trimmed_paths!(self.tcx.def_path_str_with_args(did, args))))
     }
     fn ty(&self, t: Ty<'tcx>) -> String {
-        with_resolve_crate_name!(with_no_trimmed_paths!(format!("{}", t)))
+        with_resolve_crate_name!(with_no_visible_paths!(with_no_trimmed_paths!(format!("{}", t))))
     }
 
     fn span(&self, sp: Span, fn_file: &str, out: &mut String) {
@@ -521,7 +521,7 @@ impl<'tcx> Cx<'tcx> {
                         out,
                         ",\"trait\":{},\"trait_ref\":{}",
                         js(&self.path(tr.def_id)),
-                        js(&with_resolve_crate_name!(with_no_trimmed_paths!(format!("{}", tr))))
+                        js(&with_resolve_crate_name!(with_no_visible_paths!(with_no_trimmed_paths!(format!("{}", tr)))))
                     );
                 }
                 if let Some(ti) = tcx.opt_associated_item(did).and_then(|ai| ai.trait_item_def_id()) {
@@ -850,7 +850,7 @@ impl<'tcx> Cx<'tcx> {
                             out,
                             ",\"trait\":{},\"trait_ref\":{}",
                             js(&self.path(tr.def_id)),
-                            js(&with_resolve_crate_name!(with_no_trimmed_paths!(format!("{}", tr))))
+                            js(&with_resolve_crate_name!(with_no_visible_paths!(with_no_trimmed_paths!(format!("{}", tr)))))
                         );
                     }
                     // generics + predicates (where clauses) as strings
@@ -860,7 +860,7 @@ impl<'tcx> Cx<'tcx> {
                         if i > 0 {
                             out.push(',');
                         }
-                        esc(&with_resolve_crate_name!(with_no_trimmed_paths!(format!("{}", p))), out);
+                        esc(&with_resolve_crate_name!(with_no_visible_paths!(with_no_trimmed_paths!(format!("{}", p)))), out);
                     }
                     out.push_str("],\"items\":[");
                     for (i, ai) in tcx.associated_items(did).in_definition_order().enumerate() {
